@@ -16,7 +16,7 @@ RULE = ("Hypothesis-generated simple loop-free graphs built as unions of planted
         "atlas on <= 5 (quick) / <= 6 nodes x limits {0,2,3} x 3 schedules. Oracle: label partition + greedy-maximal "
         "predicate against nx.enumerate_all_cliques. Non-trivial = graph contains two triangles sharing an edge or a "
         "clique of size >= 4; distinct = canonical JSON")
-ASSUMPTIONS = ["node ids are non-negative ints or tuples of such (labels embed the member list textually and are parsed back)"]
+ASSUMPTIONS = ["node ids are ints, strings or tuples of such (labels embed the member list textually, as the repr of a list, and are parsed back)"]
 BUDGET = {"quick": (16, 250), "thorough": (16, 8000)}
 LABEL = re.compile(r"^(\d+)-(\[.*\])-(\d+)$")  # members may be negative ints or tuples: only the outer fields are digits
 
@@ -48,7 +48,7 @@ def graph_history(draw, tier):
     edges = sorted(edges)
     order = draw(st.permutations(edges)) if edges else []
     flip = [draw(st.booleans()) for _ in order]
-    relabel = draw(st.sampled_from(["id", "offset", "perm", "negative", "big"]))
+    relabel = draw(st.sampled_from(["id", "offset", "perm", "negative", "big", "str", "str_odd"]))
     if relabel == "perm":
         labels = draw(st.permutations(list(range(n))))
     elif relabel == "offset":
@@ -57,6 +57,12 @@ def graph_history(draw, tier):
         labels = [x - 2 for x in draw(st.permutations(list(range(n))))]
     elif relabel == "big":
         labels = [1000 + 37 * x for x in draw(st.permutations(list(range(n))))]
+    elif relabel == "str":
+        labels = [f"v{x}" for x in draw(st.permutations(list(range(n))))]
+    elif relabel == "str_odd":
+        # names that look like numbers, contain the separators of the label format, or quotes
+        odd = ["1", "2", "a, b", "a", "b", "x-3", "[0]", "it's", "-", " ", "0, 1", "q\"r"]
+        labels = [odd[x] if x < len(odd) else f"w{x}" for x in draw(st.permutations(list(range(n))))]
     else:
         labels = list(range(n))
     node_order = draw(st.permutations(list(range(n)))) if draw(st.booleans()) else None
@@ -118,12 +124,16 @@ class Vtx:
         return self.i < o.i
 
 
+def ss(xs):
+    return sorted(xs, key=repr)
+
+
 def verify(G, before_nodes, before_edges, limit, step):
     import networkx as nx
     if set(G.nodes()) != before_nodes:
         raise Violation("nodes-changed", f"step {step}: node set changed")
     if {frozenset(e) for e in G.edges()} != before_edges:
-        raise Violation("edges-changed", f"step {step}: edge set changed: {sorted(map(sorted, before_edges))} -> {sorted(map(sorted, G.edges()))}")
+        raise Violation("edges-changed", f"step {step}: edge set changed: {ss(map(ss, before_edges))} -> {ss(map(ss, G.edges()))}")
     by_label = {}
     for u, v, d in G.edges(data=True):
         lab = d.get("clique")
@@ -135,7 +145,11 @@ def verify(G, before_nodes, before_edges, limit, step):
     size_of_edge = {}
     for lab, es in by_label.items():
         m = LABEL.match(lab)
-        size, members, cid = int(m.group(1)), ast.literal_eval(m.group(2)), int(m.group(3))
+        try:
+            size, members, cid = int(m.group(1)), ast.literal_eval(m.group(2)), int(m.group(3))
+        except Exception:
+            raise Violation("label-members", f"step {step}: the member list of label {lab!r} (edge set {ss(map(ss, es))}) does not "
+                                             f"denote vertices: it cannot be read back")
         byrepr = getattr(G, "_vtx_by_number", None)
         if byrepr:
             members = [byrepr.get(x, x) for x in members]
@@ -148,12 +162,12 @@ def verify(G, before_nodes, before_edges, limit, step):
         want = {frozenset(p) for p in combinations(members, 2)}
         for p in want:
             if not G.has_edge(*tuple(p)):
-                raise Violation("not-a-clique", f"step {step}: label {lab!r}: members {sorted(p)} are not adjacent")
+                raise Violation("not-a-clique", f"step {step}: label {lab!r}: members {ss(p)} are not adjacent")
         if es != want:
-            raise Violation("label-edges", f"step {step}: edges carrying {lab!r} are {sorted(map(sorted, es))}, its member "
-                                           f"pairs are {sorted(map(sorted, want))}")
+            raise Violation("label-edges", f"step {step}: edges carrying {lab!r} are {ss(map(ss, es))}, its member "
+                                           f"pairs are {ss(map(ss, want))}")
         if cid in ids and ids[cid] != frozenset(members):
-            raise Violation("id-reused", f"step {step}: id {cid} labels two cliques {sorted(ids[cid])} and {members}")
+            raise Violation("id-reused", f"step {step}: id {cid} labels two cliques {ss(ids[cid])} and {members}")
         ids[cid] = frozenset(members)
         if frozenset(members) in members_of and members_of[frozenset(members)] != cid:
             raise Violation("clique-two-ids", f"step {step}: clique {members} carries two ids")
@@ -186,7 +200,7 @@ def check(case):
     from gcmpy import MPCC
     lab = case["labels"]
     G = nx.Graph()
-    if case.get("object_vertices"):
+    if case.get("object_vertices") and not any(isinstance(x, str) for x in lab):
         objs = [Vtx(x) for x in lab]
         G._vtx_by_number = {o.i: o for o in objs}
         lab = objs
@@ -235,7 +249,9 @@ def check(case):
             classes.add("repeated_cover")
     if case.get("tuple_named"):
         classes.add("tuple_named_vertices")
-    elif list(G.nodes()) != sorted(G.nodes()):
+    elif list(G.nodes()) != sorted(G.nodes(), key=lambda v: (0, v) if isinstance(v, int) else (1, repr(v))):
         classes.add("unsorted_node_order")
+    if any(isinstance(v, str) for v in G.nodes()):
+        classes.add("string_vertex_names")
     classes.add("rng_" + r["mode"])
     return {"nontrivial": nt, "classes": sorted(classes)}
